@@ -15,6 +15,7 @@ import (
 
 func init() {
 	register(&PropertyCheck{ID: "C18", Level: "proof", Run: checkC18, Canaries: []Canary{
+		{Name: "rf7-reader-constructor", Silent: true, Edits: []Edit{{"auth.go", "\tb := &buffer{data: data}", "\tb := newBuffer(data)"}, {"buffer.go", "// getAny reads all properties from the current offset starting with\n// the variable length.  fields map property identity codes to wire\n// type fields and the addProp func is used for each user property.\nfunc (b *buffer) getAny(fields map[Ident]func() wireType, addProp func(UserProp)) {\n\tif b.atEnd() {\n\t\treturn\n\t}\n\tvar propLen vbint\n\tb.get(&propLen)\n\tend := b.i + int(propLen)\n\tvar id Ident\n\tfor b.i < end {\n\t\tb.get(&id)\n\t\t// first failure stops the parsing\n\t\tif b.err != nil {\n\t\t\treturn\n\t\t}\n\t\tfield, hasField := fields[id]\n\t\tif hasField {\n\t\t\tb.get(field())\n\t\t\tcontinue\n\t\t}\n\t\tswitch id {\n\t\tcase UserProperty:\n\t\t\tvar p UserProp\n\t\t\tb.get(&p)\n\t\t\taddProp(p)\n\n\t\tcase SubscriptionID:\n\t\t\tvar sub vbint\n\t\t\tb.get(&sub)\n\t\t\tif b.addSubscriptionID != nil {\n\t\t\t\tb.addSubscriptionID(uint32(sub))\n\t\t\t}\n\n\t\tdefault:\n\t\t\tb.err = fmt.Errorf(\"unknown property id 0x%02x\", id)\n\t\t}\n\t}\n}\n\nfunc (b *buffer) get(v wireType) {\n\tif b.err != nil {\n\t\treturn\n\t}\n\tif b.i >= len(b.data) {\n\t\tb.err = ErrMissingData\n\t\treturn\n\t}\n\tif b.err = v.UnmarshalBinary(b.data[b.i:]); b.err != nil {\n\t\treturn\n\t}\n\tn := v.width()\n\tif n > len(b.data)-b.i {\n\t\tb.err = ErrMissingData\n\t\treturn\n\t}\n\tb.i += n", "// newBuffer returns a buffer positioned at the start of data.\nfunc newBuffer(data []byte) *buffer {\n\treturn &buffer{data: data}\n}\n\n// getAny reads all properties from the current offset starting with\n// the variable length.  fields map property identity codes to wire\n// type fields and the addProp func is used for each user property.\nfunc (b *buffer) getAny(fields map[Ident]func() wireType, addProp func(UserProp)) {\n\tif b.atEnd() {\n\t\treturn\n\t}\n\tvar propLen vbint\n\tb.get(&propLen)\n\tend := b.i + int(propLen)\n\tvar id Ident\n\tfor b.i < end {\n\t\tb.get(&id)\n\t\t// first failure stops the parsing\n\t\tif b.err != nil {\n\t\t\treturn\n\t\t}\n\t\tfield, hasField := fields[id]\n\t\tif hasField {\n\t\t\tb.get(field())\n\t\t\tcontinue\n\t\t}\n\t\tswitch id {\n\t\tcase UserProperty:\n\t\t\tvar p UserProp\n\t\t\tb.get(&p)\n\t\t\taddProp(p)\n\n\t\tcase SubscriptionID:\n\t\t\tvar sub vbint\n\t\t\tb.get(&sub)\n\t\t\tif b.addSubscriptionID != nil {\n\t\t\t\tb.addSubscriptionID(uint32(sub))\n\t\t\t}\n\n\t\tdefault:\n\t\t\tb.fail(fmt.Errorf(\"unknown property id 0x%02x\", id))\n\t\t}\n\t}\n}\n\nfunc (b *buffer) get(v wireType) {\n\tif b.err != nil {\n\t\treturn\n\t}\n\trest := b.rest()\n\tif len(rest) == 0 {\n\t\tb.fail(ErrMissingData)\n\t\treturn\n\t}\n\tif err := v.UnmarshalBinary(rest); err != nil {\n\t\tb.fail(err)\n\t\treturn\n\t}\n\tn := v.width()\n\tif n > len(rest) {\n\t\tb.fail(ErrMissingData)\n\t\treturn\n\t}\n\tb.i += n\n}\n\n// rest returns the data not yet read.\nfunc (b *buffer) rest() []byte {\n\treturn b.data[b.i:]\n}\n\n// fail records err unless a previous failure is already recorded,\n// i.e. the first failure is the one reported.\nfunc (b *buffer) fail(err error) {\n\tif b.err == nil {\n\t\tb.err = err\n\t}"}, {"connack.go", "\tb := &buffer{data: data}", "\tb := newBuffer(data)"}, {"connect.go", "\tbuf := &buffer{data: data}", "\tbuf := newBuffer(data)"}, {"disconnect.go", "\tb := &buffer{data: data}", "\tb := newBuffer(data)"}, {"puback.go", "\tb := &buffer{data: data}", "\tb := newBuffer(data)"}, {"pubcomp.go", "\tb := &buffer{data: data}", "\tb := newBuffer(data)"}, {"pubrec.go", "\tb := &buffer{data: data}", "\tb := newBuffer(data)"}, {"pubrel.go", "\tb := &buffer{data: data}", "\tb := newBuffer(data)"}, {"suback.go", "\tb := &buffer{data: data}", "\tb := newBuffer(data)"}, {"subscribe.go", "\tb := &buffer{data: data}", "\tb := newBuffer(data)"}, {"unsuback.go", "\tb := &buffer{data: data}", "\tb := newBuffer(data)"}, {"unsubscribe.go", "\tb := &buffer{data: data}", "\tb := newBuffer(data)"}}},
 		{Name: "adv4-E-deferred-print-of-the-password", Rule: "R18.1", Where: "(*Connect).dump#deferred-call", Edits: []Edit{{"connect.go", "\tfmt.Fprintf(w, \"Password: %q\\n\", stars(len(p.Password())))\n", "\tdefer fmt.Fprintf(w, \"Password: %q\\n\", p.Password())\n"}}},
 		{Name: "deferred-dump-of-the-user-properties", Silent: true, Edits: []Edit{{"connect.go", "\tp.UserProperties.dump(w)\n}\n\nfunc stars", "\tdefer p.UserProperties.dump(w)\n}\n\nfunc stars"}}},
 		{Name: "deferred-print-of-the-stars", Silent: true, Edits: []Edit{{"connect.go", "\tfmt.Fprintf(w, \"Password: %q\\n\", stars(len(p.Password())))\n", "\tdefer fmt.Fprintf(w, \"Password: %q\\n\", stars(len(p.Password())))\n"}}},
@@ -813,6 +814,9 @@ func checkFrameOnlyThroughReader(p *Prog, c *Check, tn, rule string) {
 				case *ssa.Call:
 					if bi, ok := x.Call.Value.(*ssa.Builtin); ok && bi.Name() == "len" {
 						continue
+					}
+					if d, isNew := cur.newReader(x); isNew && d == v {
+						continue // building the reader through its constructor
 					}
 				}
 				if bad == "" {
